@@ -56,7 +56,7 @@ def _quiet():
     sys.dont_write_bytecode = True
 
 
-def _child_main(role, w, nproc, start, conn, pidx, pt, cfg):
+def _child_main(role, w, nproc, start, conn, pidx, pt, pn, cfg):
     try:
         _quiet()
         ctx = _ROLE_SETUP[role](cfg)
@@ -68,6 +68,7 @@ def _child_main(role, w, nproc, start, conn, pidx, pt, cfg):
             pidx.value = idx
             for v in run(ctx, idx, item):
                 conn.send(('viol', idx, v))
+            pn.value += 1
         pidx.value = -1
         fin = _ROLE_FINISH.get(role)
         stats = fin(ctx) if fin else ctx.get('stats', {})
@@ -95,8 +96,9 @@ def _spawn(role, w, nproc, start, cfg):
     s.parent, child = _MP.Pipe(duplex=False)
     s.pidx = _MP.Value('q', -1, lock=False)
     s.pt = _MP.Value('d', 0.0, lock=False)
+    s.pn = _MP.Value('q', 0, lock=False)
     s.proc = _MP.Process(target=_child_main,
-                         args=(role, w, nproc, start, child, s.pidx, s.pt, cfg))
+                         args=(role, w, nproc, start, child, s.pidx, s.pt, s.pn, cfg))
     s.proc.daemon = True
     s.proc.start()
     child.close()
@@ -107,7 +109,7 @@ def _spawn(role, w, nproc, start, cfg):
 def _run_pool(role, cfg, nproc=NPROC, hang_s=None, backstop_s=1500.0):
     """Run role over its items, partitioned idx % nproc.  Returns dict with
     'viol' [(idx, payload)], 'hang' [idx], 'stats' [dict], 'crash' [str]."""
-    out = {'viol': [], 'hang': [], 'stats': [], 'crash': []}
+    out = {'viol': [], 'hang': [], 'stats': [], 'crash': [], 'killed_n': 0}
     slots = [_spawn(role, w, nproc, 0, cfg) for w in range(nproc)]
     t0 = time.time()
     while any(not s.done for s in slots):
@@ -154,6 +156,7 @@ def _run_pool(role, cfg, nproc=NPROC, hang_s=None, backstop_s=1500.0):
                 except (EOFError, OSError):
                     pass
                 out['hang'].append(idx)
+                out['killed_n'] += s.pn.value
                 slots[i] = _spawn(role, s.w, nproc, idx + 1, cfg)
         if now - t0 > backstop_s:
             for s in slots:
@@ -166,35 +169,46 @@ def _run_pool(role, cfg, nproc=NPROC, hang_s=None, backstop_s=1500.0):
     return out
 
 
-def _run_single(role, cfg, item, timeout_s):
-    """Run one item in a fresh child.  Returns ('ok', [payload]) |
-    ('hang', None) | ('crash', text)."""
-    cfg = dict(cfg)
-    cfg['single_item'] = item
-    s = _spawn(role, 0, 1, 0, cfg)
-    viol = []
+def _run_singles(role, cfg, items, timeout_s):
+    """Run each item alone in a fresh child (all children in parallel).
+    Returns a list of ('ok', [payload]) | ('hang', None) | ('crash', text)."""
+    slots = []
+    for item in items:
+        c = dict(cfg)
+        c['single_item'] = item
+        s = _spawn(role, 0, 1, 0, c)
+        s.viol = []
+        s.res = None
+        slots.append(s)
     t0 = time.time()
-    res = None
-    while res is None:
-        if s.parent.poll(0.1):
-            try:
-                msg = s.parent.recv()
-            except (EOFError, OSError):
-                res = ('crash', 'child died')
-                break
-            if msg[0] == 'viol':
-                viol.append(msg[2])
-            elif msg[0] == 'done':
-                res = ('ok', viol)
-            elif msg[0] == 'crash':
-                res = ('crash', msg[1])
-        elif s.pidx.value >= 0 and time.time() - s.pt.value > timeout_s:
-            res = ('hang', None)
-        elif time.time() - t0 > timeout_s + 60:
-            res = ('crash', 'single run backstop')
-    s.proc.kill()
-    s.proc.join(5)
-    return res
+    while any(s.res is None for s in slots):
+        for s in slots:
+            if s.res is not None:
+                continue
+            if s.parent.poll(0.05):
+                try:
+                    msg = s.parent.recv()
+                except (EOFError, OSError):
+                    s.res = ('crash', 'child died')
+                    continue
+                if msg[0] == 'viol':
+                    s.viol.append(msg[2])
+                elif msg[0] == 'done':
+                    s.res = ('ok', s.viol)
+                elif msg[0] == 'crash':
+                    s.res = ('crash', msg[1])
+            elif s.pidx.value >= 0 and time.time() - s.pt.value > timeout_s:
+                s.res = ('hang', None)
+            elif time.time() - t0 > timeout_s + 120:
+                s.res = ('crash', 'single run backstop')
+    for s in slots:
+        s.proc.kill()
+        s.proc.join(5)
+    return [s.res for s in slots]
+
+
+def _run_single(role, cfg, item, timeout_s):
+    return _run_singles(role, cfg, [item], timeout_s)[0]
 
 
 def _items_of(cfg, gen):
@@ -948,8 +962,12 @@ _ROLE_RUN['registries'] = _reg_run
 def _report_sorted(rep, viols):
     """Report the smallest cases first (at most 3 per key are kept)."""
     viols = sorted(viols, key=lambda iv: (iv[1].get('size', 0), iv[0]))
+    seen = set()
     for idx, v in viols:
-        _report_generic(rep, v)
+        sig = (v['key'], repr(v['input']))
+        if sig not in seen:
+            seen.add(sig)
+            _report_generic(rep, v)
 
 
 def check_registries(rep):
@@ -1577,13 +1595,14 @@ def check_fuzz(rep):
     hangs = sorted(set(res['hang']), key=lambda i: (len(items[i]), i))
     per_key = {}
     n_hang_confirmed = 0
+    todo = []
     for i in hangs:
         k = _hang_key(items[i])
-        if per_key.get(k, 0) >= 3:
-            continue
-        r = _run_single('fuzz', cfg, items[i], 5.0)
-        if r[0] == 'hang':
+        if per_key.get(k, 0) < 3:
             per_key[k] = per_key.get(k, 0) + 1
+            todo.append(i)
+    for i, r in zip(todo, _run_singles('fuzz', cfg, [items[i] for i in todo], 5.0)):
+        if r[0] == 'hang':
             n_hang_confirmed += 1
             _report_hang(rep, items[i])
         elif r[0] == 'crash':
@@ -1593,7 +1612,7 @@ def check_fuzz(rep):
                      'returned when re-run alone; not reported' % _short(items[i]))
     _report_sorted(rep, res['viol'])
     status = _merge_counts(res['stats'], 'status')
-    n = sum(s['n'] for s in res['stats']) + len(res['hang'])
+    n = sum(s['n'] for s in res['stats']) + len(res['hang']) + res['killed_n']
     delivered = sum(s['delivered'] for s in res['stats'])
     distinct = len(set(items))
     rep.bounded(
@@ -1625,9 +1644,533 @@ def check_fuzz(rep):
                'hangs_confirmed': n_hang_confirmed})
 
 
-# @@DISPATCH@@
+# ---------------------------------------------------------------------------
+# sub-check: dispatch
+# ---------------------------------------------------------------------------
+#
+# History ops (JSON lists):
+#   ['new', kind, path]   kind in plain|match|src|port|tmpl  (enabled at birth)
+#   ['enable', i] ['disable', i] ['one_shot', i] ['free', i]
+#   ['setfunc', i]        replace the function (r.func = g)
+#   ['setkill', i, j]     replace the function of i by one that frees j
+#   ['perm', i]           r.permanent = True
+#   ['cmdperiod']         CmdPeriod.run()
+#   ['msg', q, variant]   variant in base|B|if1|arg2|bundle|noargs
+# Filters: src accepts sender A only; port accepts the second UDP interface
+# only; tmpl = arg_template [1].
+
+_D_NEW = [['new', k, '/a'] for k in ('plain', 'match', 'src', 'port', 'tmpl')] \
+    + [['new', 'plain', '/b'], ['new', 'match', '/b']]
+_D_MSG = [['msg', '/a', v] for v in ('base', 'B', 'if1', 'arg2', 'bundle', 'noargs')] \
+    + [['msg', '/?', 'base'], ['msg', '/?', 'bundle'], ['msg', '/b', 'base']]
+_D_RESP_OPS = ('disable', 'enable', 'one_shot', 'free', 'setfunc', 'perm')
+
+
+def _disp_ops(k, freed, maxnew):
+    ops = []
+    if k < maxnew:
+        ops.extend(_D_NEW)
+    if k == 0:
+        return ops
+    for i in range(k):
+        if i in freed:
+            continue
+        for o in _D_RESP_OPS:
+            ops.append([o, i])
+        for j in range(k):
+            if j != i:
+                ops.append(['setkill', i, j])
+    ops.append(['cmdperiod'])
+    ops.extend(_D_MSG)
+    return ops
+
+
+def _disp_histories(maxlen, maxnew=3):
+    def rec(prefix, k, freed):
+        for op in _disp_ops(k, freed, maxnew):
+            h = prefix + [op]
+            if op[0] == 'msg':
+                yield h
+            if len(h) < maxlen:
+                yield from rec(h, k + (op[0] == 'new'),
+                               freed | {op[1]} if op[0] == 'free' else freed)
+    return rec([], 0, frozenset())
+
+
+def _disp_random_history(rng, length, maxnew=3):
+    h, k, freed = [], 0, frozenset()
+    while len(h) < length:
+        ops = _disp_ops(k, freed, maxnew)
+        if len(h) == length - 1:
+            ops = [o for o in ops if o[0] == 'msg'] or ops
+        op = rng.choice(ops)
+        h.append(op)
+        if op[0] == 'new':
+            k += 1
+        elif op[0] == 'free':
+            freed = freed | {op[1]}
+    return h
+
+
+class _MR:
+    """Model of one responder."""
+
+    def __init__(self, rid, kind, path, seq):
+        self.rid = rid
+        self.kind = kind
+        self.path = path
+        self.disp = 'match' if kind == 'match' else 'exact'
+        self.enabled = True
+        self.freed = False
+        self.tag = 0
+        self.oneshot = 'no'          # no | yes | maybe
+        self.kill = None
+        self.permanent = False       # False | True | 'unknown'
+        self.seq = seq
+        self.stable = True           # never re-enabled
+        self.unspec = False
+
+
+def _accepts(r, q, variant):
+    if r.disp == 'exact':
+        if r.path != q:
+            return False, 'path'
+    elif not osc_match(q, r.path):
+        return False, 'path'
+    if r.kind == 'src' and variant == 'B':
+        return False, 'source'
+    if r.kind == 'port' and variant != 'if1':
+        return False, 'port'
+    if r.kind == 'tmpl' and variant in ('arg2', 'noargs'):
+        return False, 'template'
+    return True, None
+
+
+def _before(x, y):
+    """Is x guaranteed to be called before y?  Only demanded within one
+    dispatcher and one path, between responders that were never re-enabled."""
+    return (x.disp == y.disp and x.path == y.path and x.stable and y.stable
+            and x.seq < y.seq)
+
+
+class _DispHarness:
+    def __init__(self, rt):
+        import socket
+        self.rt = rt
+        self.log = []
+        self.sync_seen = []
+        self.sync_ev = rt.threading.Event()
+        self.sA = socket.socket(socket.AF_INET, socket.SOCK_DGRAM)
+        self.sA.bind(('127.0.0.1', 0))
+        self.sB = socket.socket(socket.AF_INET, socket.SOCK_DGRAM)
+        self.sB.bind(('127.0.0.1', 0))
+        self.addrA = self.sA.getsockname()
+        self.addrB = self.sB.getsockname()
+        tmp = socket.socket(socket.AF_INET, socket.SOCK_DGRAM)
+        tmp.bind(('127.0.0.1', 0))
+        self.p1 = tmp.getsockname()[1]
+        tmp.close()
+        rt.main.open_udp_port(self.p1)
+        host = socket.gethostbyname('localhost')
+        self.if0 = rt.iface
+        self.if1 = rt.osci.OscInterface._local_endpoints[(host, self.p1)]
+        self.nsync = 0
+
+        def sync_func(msg, time, addr, recv_port):
+            if msg[0] == '/c18sync':
+                self.sync_seen.append(msg[1])
+                self.sync_ev.set()
+        rt.main.add_osc_recv_func(sync_func)
+        self.sync_func = sync_func
+        self.cp_saved = dict(rt.sac.CmdPeriod._actions)
+        self.tt5 = rt.osc0 + (5 << 32)
+
+    def datagram(self, q, variant):
+        d = _pad(q.encode('ascii'))
+        if variant == 'noargs':
+            d += _pad(b',')
+        else:
+            d += _pad(b',i') + struct.pack('>i', 2 if variant == 'arg2' else 1)
+        if variant == 'bundle':
+            d = b'#bundle\0' + struct.pack('>Q', self.tt5) \
+                + struct.pack('>i', len(d)) + d
+        return d
+
+    def deliver(self, q, variant, udp):
+        rt = self.rt
+        iface = self.if1 if variant == 'if1' else self.if0
+        sender = self.addrB if variant == 'B' else self.addrA
+        d = self.datagram(q, variant)
+        t0 = rt.main.elapsed_time()
+        if not udp:
+            iface._handle_request(d, sender)
+            rt.sync()
+        else:
+            sock = self.sB if variant == 'B' else self.sA
+            self.nsync += 1
+            self.sync_ev.clear()
+            sock.sendto(d, ('127.0.0.1', iface.port))
+            sd = _pad(b'/c18sync') + _pad(b',i') + struct.pack('>i', self.nsync)
+            sock.sendto(sd, ('127.0.0.1', iface.port))
+            deadline = time.time() + 20
+            while self.nsync not in self.sync_seen:
+                if not self.sync_ev.wait(max(0.0, deadline - time.time())):
+                    return None
+                self.sync_ev.clear()
+            del self.sync_seen[:]
+            rt.sync()
+        t1 = rt.main.elapsed_time()
+        return (t0, t1, sender, iface.port)
+
+    def cleanup(self, resp):
+        rt = self.rt
+        for r in resp:
+            try:
+                r.free()
+            except Exception:
+                pass
+        rt.sac.CmdPeriod._actions = dict(self.cp_saved)
+        for d in (rt.rpd.OscFunc._default_dispatcher,
+                  rt.rpd.OscFunc._default_matching_dispatcher):
+            if getattr(d, 'active', None) or getattr(d, 'wrapped_funcs', None):
+                d.active.clear()
+                d.wrapped_funcs.clear()
+                try:
+                    d.unregister()
+                except Exception:
+                    pass
+        try:
+            rt.rpd.OscFunc._all_func_proxies.clear()
+        except Exception:
+            pass
+
+
+def _disp_viol(key, what, item, observed, expected):
+    return {'obligation': 'C18.dispatch', 'what': what, 'input': item,
+            'observed': observed, 'expected': expected,
+            'key': 'C18.dispatch:' + key, 'size': len(item[1]),
+            'replay': {'func': 'dispatch', 'args': item}}
+
+
+def _disp_run_history(hs, item):
+    """Returns a list of violation payloads (at most one: the first)."""
+    udp, hist = item[0] == 'udp', item[1]
+    rt = hs.rt
+    rpd, nad = rt.rpd, rt.nad
+    resp, model = [], []
+    log = hs.log
+    del log[:]
+    seq = [0]
+
+    def mkfunc(rid, tag, kill=None):
+        def f(msg, time, addr, recv_port):
+            log.append((rid, tag, msg, time, (addr.hostname, addr.port),
+                        recv_port))
+            if kill is not None:
+                resp[kill].free()
+        return f
+
+    try:
+        for step, op in enumerate(hist):
+            o = op[0]
+            try:
+                if o == 'new':
+                    kind, path = op[1], op[2]
+                    rid = len(resp)
+                    f = mkfunc(rid, 0)
+                    if kind == 'plain':
+                        r = rpd.OscFunc(f, path)
+                    elif kind == 'match':
+                        r = rpd.OscFunc.matching(f, path)
+                    elif kind == 'src':
+                        r = rpd.OscFunc(f, path, nad.NetAddr(*hs.addrA))
+                    elif kind == 'port':
+                        r = rpd.OscFunc(f, path, recv_port=hs.p1)
+                    else:
+                        r = rpd.OscFunc(f, path, arg_template=[1])
+                    resp.append(r)
+                    seq[0] += 1
+                    model.append(_MR(rid, kind, path, seq[0]))
+                elif o == 'enable':
+                    m = model[op[1]]
+                    resp[op[1]].enable()
+                    if m.freed:
+                        m.unspec = True     # enable after free: left open
+                    elif not m.enabled:
+                        m.enabled = True
+                        m.stable = False
+                        seq[0] += 1
+                        m.seq = seq[0]
+                elif o == 'disable':
+                    resp[op[1]].disable()
+                    model[op[1]].enabled = False
+                elif o == 'free':
+                    resp[op[1]].free()
+                    model[op[1]].enabled = False
+                    model[op[1]].freed = True
+                elif o == 'one_shot':
+                    resp[op[1]].one_shot()
+                    model[op[1]].oneshot = 'yes'
+                elif o in ('setfunc', 'setkill'):
+                    m = model[op[1]]
+                    m.tag += 1
+                    m.kill = op[2] if o == 'setkill' else None
+                    resp[op[1]].func = mkfunc(m.rid, m.tag, m.kill)
+                    if m.oneshot == 'yes':
+                        m.oneshot = 'maybe'  # does one_shot survive? left open
+                elif o == 'perm':
+                    m = model[op[1]]
+                    resp[op[1]].permanent = True
+                    m.permanent = True if (m.enabled and m.permanent is not
+                                           'unknown') else 'unknown'
+                elif o == 'cmdperiod':
+                    rt.sac.CmdPeriod.run()
+                    for m in model:
+                        if m.freed:
+                            continue
+                        if not m.enabled or m.permanent == 'unknown':
+                            m.unspec = True
+                        elif m.permanent is False:
+                            m.enabled = False
+                            m.freed = True
+                elif o == 'msg':
+                    q, variant = op[1], op[2]
+                    n0 = len(log)
+                    env = hs.deliver(q, variant, udp)
+                    if env is None:
+                        return [None]        # loopback probe lost: inconclusive
+                    t0, t1, sender, port = env
+                    obs = [e for e in log[n0:] if not model[e[0]].unspec]
+                    v = _disp_compare(hs, item, step, model, q, variant, obs,
+                                      t0, t1, sender, port)
+                    if v is not None:
+                        return [v]
+            except RuntimeError:
+                raise
+            except Exception as e:
+                return [_disp_viol(
+                    'api-raises', '%r (step %d) raised %s: %s' % (
+                        op, step, type(e).__name__, e), item,
+                    type(e).__name__, 'no exception')]
+    finally:
+        hs.cleanup(resp)
+    return []
+
+
+def _disp_compare(hs, item, step, model, q, variant, obs, t0, t1, sender, port):
+    cands = []
+    why_not = {}
+    for m in model:
+        if m.unspec:
+            continue
+        if not m.enabled:
+            why_not[m.rid] = 'freed' if m.freed else 'disabled'
+            continue
+        ok, why = _accepts(m, q, variant)
+        if ok:
+            cands.append(m)
+        else:
+            why_not[m.rid] = why
+    # a candidate freed by another candidate's callback may or may not run
+    # (left open) unless it is guaranteed to come first
+    optional = set()
+    for c in cands:
+        for k in cands:
+            if k is not c and k.kill == c.rid and not _before(c, k):
+                optional.add(c.rid)
+    must = [c for c in cands if c.rid not in optional]
+    removal = any(c.oneshot != 'no' or c.kill is not None for c in cands)
+    exp_desc = {'must': [c.rid for c in must], 'optional': sorted(optional)}
+    obs_desc = [[e[0], e[1]] for e in obs]
+    byrid = {}
+    for e in obs:
+        byrid.setdefault(e[0], []).append(e)
+    what0 = 'history %r, message %d: ' % (item[1], step)
+    for rid, es in byrid.items():
+        m = model[rid]
+        if rid in why_not:
+            reason = why_not[rid]
+            if reason == 'freed' and m.oneshot != 'no':
+                reason = 'one-shot-already-fired-or-freed'
+            return _disp_viol('spurious:' + reason,
+                              what0 + 'responder %d (%s %s) was invoked although %s'
+                              % (rid, m.kind, m.path, reason), item, obs_desc, exp_desc)
+        if len(es) > 1:
+            return _disp_viol('invoked-twice', what0 + 'responder %d invoked %d '
+                              'times' % (rid, len(es)), item, obs_desc, exp_desc)
+    for c in must:
+        if c.rid not in byrid:
+            if removal:
+                key = 'skip-after-self-removal' + (
+                    '-matching' if c.disp == 'match' else '')
+            elif variant == 'noargs' and any(
+                    x.kind == 'tmpl' and x.enabled and not x.unspec for x in model):
+                key = 'template-short-message'
+            else:
+                key = 'not-invoked'
+            return _disp_viol(key, what0 + 'enabled responder %d (%s %s), '
+                              'untouched during this dispatch, was not invoked'
+                              % (c.rid, c.kind, c.path), item, obs_desc, exp_desc)
+    exp_msg = [q] + ([] if variant == 'noargs' else [2 if variant == 'arg2' else 1])
+    for e in obs:
+        rid, tag, msg, tm, addr, rport = e
+        m = model[rid]
+        if tag != m.tag:
+            return _disp_viol('stale-function', what0 + 'responder %d ran '
+                              'function version %d, current is %d'
+                              % (rid, tag, m.tag), item, obs_desc, exp_desc)
+        ok_t = abs(tm - 5.0) < 1e-6 if variant == 'bundle' else t0 <= tm <= t1
+        if msg != exp_msg or not ok_t or tuple(addr) != tuple(sender) \
+                or rport != port:
+            return _disp_viol('wrong-arguments', what0 + 'responder %d got '
+                              '(%r, %r, %r, %r)' % (rid, msg, tm, addr, rport),
+                              item, [msg, tm, addr, rport],
+                              [exp_msg, 5.0 if variant == 'bundle' else [t0, t1],
+                               sender, port])
+    order = [e[0] for e in obs]
+    for i, x in enumerate(order):
+        for y in order[i + 1:]:
+            if _before(model[y], model[x]):
+                return _disp_viol('order', what0 + 'responder %d ran before %d'
+                                  % (x, y), item, obs_desc, exp_desc)
+    # effects of this dispatch on the model
+    ran = set(byrid)
+    for c in cands:
+        if c.rid in optional and c.rid not in ran:
+            continue
+        sure = c.rid not in optional
+        if c.kill is not None:
+            t = model[c.kill]
+            if c.rid in ran or sure:
+                t.enabled = False
+                t.freed = True
+        if c.oneshot == 'yes':
+            c.enabled = False
+            c.freed = True
+        elif c.oneshot == 'maybe':
+            c.unspec = True
+    for rid in optional:
+        # freed by its killer if that one ran (it did, or it was optional too)
+        killers = [k for k in cands if k.kill == rid and k.rid != rid]
+        if all(k.rid in ran for k in killers):
+            model[rid].enabled = False
+            model[rid].freed = True
+        else:
+            model[rid].unspec = True
+    return None
+
+
+def _disp_setup(cfg):
+    rt = _RT()
+    return {'rt': rt, 'hs': _DispHarness(rt),
+            'stats': {'n': 0, 'msgs': 0, 'udp': 0, 'inconclusive': 0,
+                      'nontriv': 0}}
+
+
+def _disp_items_gen(cfg):
+    idx = 0
+    for h in _disp_histories(cfg['exh_len']):
+        yield idx, ['direct', h]
+        idx += 1
+    rng = random.Random(cfg['seed'])
+    for n, length in cfg['random']:
+        for _ in range(n):
+            yield idx, ['direct', _disp_random_history(rng, length)]
+            idx += 1
+    for _ in range(cfg['udp_n']):
+        yield idx, ['udp', _disp_random_history(rng, rng.choice((3, 4, 5)))]
+        idx += 1
+    for h in _DISP_SEEDS:
+        yield idx, ['direct', h]
+        idx += 1
+        yield idx, ['udp', h]
+        idx += 1
+
+
+_DISP_SEEDS = [
+    [['new', 'plain', '/a'], ['new', 'plain', '/a'], ['new', 'plain', '/a'],
+     ['one_shot', 0], ['msg', '/a', 'base']],
+    [['new', 'match', '/a'], ['new', 'match', '/a'], ['new', 'match', '/a'],
+     ['one_shot', 0], ['msg', '/?', 'base'], ['msg', '/a', 'base']],
+    [['new', 'plain', '/a'], ['new', 'plain', '/a'], ['new', 'plain', '/a'],
+     ['setkill', 1, 0], ['msg', '/a', 'base'], ['msg', '/a', 'base']],
+    [['new', 'plain', '/a'], ['new', 'src', '/a'], ['new', 'port', '/a'],
+     ['new', 'tmpl', '/a'], ['msg', '/a', 'base'], ['msg', '/a', 'B'],
+     ['msg', '/a', 'if1'], ['msg', '/a', 'arg2'], ['msg', '/a', 'bundle']],
+    [['new', 'plain', '/a'], ['perm', 0], ['new', 'plain', '/a'],
+     ['cmdperiod'], ['msg', '/a', 'base']],
+]
+
+
+def _disp_items(cfg):
+    return _items_of(cfg, _disp_items_gen(cfg))
+
+
+def _disp_run(ctx, idx, item):
+    st = ctx['stats']
+    st['n'] += 1
+    st['msgs'] += sum(1 for op in item[1] if op[0] == 'msg')
+    if item[0] == 'udp':
+        st['udp'] += 1
+    if len(item[1]) > 2:
+        st['nontriv'] += 1
+    out = _disp_run_history(ctx['hs'], item)
+    if out == [None]:
+        st['inconclusive'] += 1
+        return ()
+    return out
+
+
+_ROLE_SETUP['dispatch'] = _disp_setup
+_ROLE_ITEMS['dispatch'] = _disp_items
+_ROLE_RUN['dispatch'] = _disp_run
+
+
 def check_dispatch(rep):
-    rep.note('dispatch: TODO')
+    if rep.tier == 'thorough':
+        cfg = {'exh_len': 4, 'random': [(600000, 5), (200000, 6), (100000, 7)],
+               'udp_n': 20000}
+    else:
+        cfg = {'exh_len': 3, 'random': [(60000, 4), (60000, 5), (10000, 6)],
+               'udp_n': 1500}
+    cfg['seed'] = rep.rng.randrange(1 << 30)
+    res = _run_pool('dispatch', cfg)
+    for c in res['crash']:
+        rep.error('dispatch child: ' + c)
+    _report_sorted(rep, res['viol'])
+    tot = lambda f: sum(s[f] for s in res['stats'])
+    if tot('inconclusive'):
+        rep.note('dispatch: %d loopback histories inconclusive (probe datagram '
+                 'not seen within 20 s)' % tot('inconclusive'))
+    rep.note('dispatch: left open on purpose: whether a responder freed by an '
+             'earlier callback of the same dispatch still runs; call order '
+             'between responders of different paths or of the exact and the '
+             'matching dispatcher, and of re-enabled responders; enable() '
+             'after free(); whether one_shot survives a later function '
+             'replacement; permanent set while disabled and disabled '
+             'responders across CmdPeriod.run()')
+    rep.bounded(
+        name='dispatch',
+        function='OscFunc / OscFunc.matching / enable / disable / one_shot / '
+                 'free / func setter / permanent / CmdPeriod.run x '
+                 'OscInterface._handle_request(datagram, sender) (rt mode; a '
+                 'sample through real UDP loopback sockets)',
+        bound='all histories of length<=%d (<=3 responders; 7 creations, 6 '
+              'per-responder ops + kill-other functions, CmdPeriod, 9 message '
+              'variants) ending in a message; seeded random histories %r '
+              '(count, length); %d random histories through UDP loopback' % (
+                  cfg['exh_len'], cfg['random'], cfg['udp_n']),
+        evaluations=tot('n'), distinct_nontrivial=tot('nontriv'),
+        rule='reference model: responders in registration order with enabled '
+             'flag; after every message the log of callback invocations must '
+             'be exactly the enabled responders whose path equals / is matched '
+             'by the address and whose source, port and template accept, once '
+             'each, current function, (msg, time, sender, port) exact, '
+             'registration order within one dispatcher+path; non-trivial = '
+             'length>2',
+        samples=[_DISP_SEEDS[0], _DISP_SEEDS[3]], exhaustive=False,
+        extra={'messages_delivered': tot('msgs'), 'udp_histories': tot('udp')})
+
 
 # ---------------------------------------------------------------------------
 # main / replay
